@@ -89,6 +89,7 @@ package experiment
 //@   trusted assumption on the caller-provided context (options non-nil, counts non-negative)
 //@   pure
 //@   ensures result1 ==> result0 != nil && result0.NumRuns >= 0 && result0.NumGenerations >= 0
+//@   ensures result1 ==> result0.CompatThreshold <= 1.7976931348623157e308
 //@ func genetics.NewPopulation
 //@   reason spawning is covered by C01/C02/C06; here only its protocol role matters
 //@   modifies ghost gTrial, ghost gPop, ghost gEval, ghost gTurn, ghost gSolved, ghost gNotified
